@@ -109,7 +109,7 @@ package cmd
 //       of its configs list, with that entry as its config.
 //@ func (*RootApp).Run props=C10,C09,C07
 //@   safety fs-frame
-//@   requires Ghost() && Shape() && allPtrFieldsSet(r.Config.Config) && depth(r.Config.TemplateData) == 0 && depth(r.Config.Anchors) == 0
+//@   requires Ghost() && allPtrFieldsSet(r.Config.Config) && depth(r.Config.TemplateData) == 0 && depth(r.Config.Anchors) == 0
 //@   site#dir MkdirAll: $recv == pathlib.NewPath(outFilePath).Parent() && lastErr("Generate") == nil
 //@   site#write WriteFile: $recv == pathlib.NewPath(outFilePath) && $0 == templateBytes && lastErr("Generate") == nil && lastErr("MkdirAll") == nil && lastErr("Exists") == nil
 //@   site#guard WriteFile: !outFileExists || *packageConfig.Config.ForceFileWrite
@@ -132,12 +132,12 @@ package cmd
 //@   loop 2: invariant mockFileToInterfaces != nil && remoteTemplateCache != nil && CacheInv(remoteTemplateCache)
 //@   loop 2: invariant#parsed forall k int :: 0 <= k && k < len(interfaces) ==> interfaces[k] != nil && len(interfaces[k].Pkg.GoFiles) > 0
 //@   loop 2: invariant#colls forall k string :: (k in mockFileToInterfaces) ==> mockFileToInterfaces[k] != nil && fresh(mockFileToInterfaces[k]) && len(mockFileToInterfaces[k].srcPkg.GoFiles) > 0
-//@   loop 2: invariant#members forall k string, j int :: (k in mockFileToInterfaces) && 0 <= j && j < len(mockFileToInterfaces[k].interfaces) ==> mockFileToInterfaces[k].interfaces[j] != nil && mockFileToInterfaces[k].interfaces[j].Config != nil
+//@   loop 2: invariant#members forall k string, j int :: (k in mockFileToInterfaces) && 0 <= j && j < len(mockFileToInterfaces[k].interfaces) ==> mockFileToInterfaces[k].interfaces[j] != nil
 //@   loop 2: invariant#errs (called("ShouldGenerateInterface") > 0 ==> lastErr("ShouldGenerateInterface") == nil) && (called("ParseTemplates") > 0 ==> lastErr("ParseTemplates") == nil) && (called("Append") > 0 ==> lastErr("Append") == nil)
 //@   loop 3: invariant mockFileToInterfaces != nil && shouldGenerate && lastErr("ShouldGenerateInterface") == nil && remoteTemplateCache != nil && CacheInv(remoteTemplateCache)
 //@   loop 3: invariant#parsed iface != nil && len(iface.Pkg.GoFiles) > 0 && (forall k int :: 0 <= k && k < len(interfaces) ==> interfaces[k] != nil && len(interfaces[k].Pkg.GoFiles) > 0)
 //@   loop 3: invariant#colls forall k string :: (k in mockFileToInterfaces) ==> mockFileToInterfaces[k] != nil && fresh(mockFileToInterfaces[k]) && len(mockFileToInterfaces[k].srcPkg.GoFiles) > 0
-//@   loop 3: invariant#members forall k string, j int :: (k in mockFileToInterfaces) && 0 <= j && j < len(mockFileToInterfaces[k].interfaces) ==> mockFileToInterfaces[k].interfaces[j] != nil && mockFileToInterfaces[k].interfaces[j].Config != nil
+//@   loop 3: invariant#members forall k string, j int :: (k in mockFileToInterfaces) && 0 <= j && j < len(mockFileToInterfaces[k].interfaces) ==> mockFileToInterfaces[k].interfaces[j] != nil
 //@   loop 3: invariant#errs (called("ParseTemplates") > 0 ==> lastErr("ParseTemplates") == nil) && (called("Append") > 0 ==> lastErr("Append") == nil)
 //@   loop 4: invariant#cache remoteTemplateCache != nil && CacheInv(remoteTemplateCache)
 //@   loop 4: invariant#errs (called("Generate") > 0 ==> lastErr("Generate") == nil) && (called("WriteFile") > 0 ==> lastErr("WriteFile") == nil) && (called("NewTemplateGenerator") > 0 ==> lastErr("NewTemplateGenerator") == nil)
